@@ -150,6 +150,8 @@ var c13ArrStyles = []c13ArrStyle{{"form-explode", "form", true}, {"form-default-
 
 type c13Case struct {
 	qp, qa, hp, cp     bool // declared parameters with defaults
+	sameInput          bool // the second validation reuses the first RequestValidationInput value
+	big                bool // the integer defaults are 1000000 (seven digits: a float64 prints in exponent notation) instead of one digit
 	arr                c13ArrStyle
 	qpV, qaV, hpV, cpV int // 0 absent, 1 present valid, 2 present invalid (qp only)
 	body               c13Body
@@ -160,14 +162,28 @@ type c13Case struct {
 }
 
 func (c c13Case) sig() string {
-	return fmt.Sprintf("params{qp:%v,qa:%v(%s),hp:%v,cp:%v} request{qp:%d,qa:%d,hp:%d,cp:%d} body=%s#%d SkipSettingDefaults=%v auth-reads-body=%v server-side-request=%v",
-		c.qp, c.qa, c.arr.name, c.hp, c.cp, c.qpV, c.qaV, c.hpV, c.cpV, c.body.name, c.bi, c.skip, c.auth, c.serverWay)
+	return fmt.Sprintf("params{qp:%v,qa:%v(%s),hp:%v,cp:%v} request{qp:%d,qa:%d,hp:%d,cp:%d} body=%s#%d SkipSettingDefaults=%v auth-reads-body=%v server-side-request=%v big-defaults=%v same-input=%v",
+		c.qp, c.qa, c.arr.name, c.hp, c.cp, c.qpV, c.qaV, c.hpV, c.cpV, c.body.name, c.bi, c.skip, c.auth, c.serverWay, c.big, c.sameInput)
+}
+
+func (c c13Case) intDefault(small float64) float64 {
+	if c.big {
+		return 1000000
+	}
+	return small
+}
+
+func (c c13Case) intText(small string) string {
+	if c.big {
+		return "1000000"
+	}
+	return small
 }
 
 func (c c13Case) document() map[string]any {
 	var params []any
 	if c.qp {
-		params = append(params, m("name", "qp", "in", "query", "schema", m("type", "integer", "default", 5.0)))
+		params = append(params, m("name", "qp", "in", "query", "schema", m("type", "integer", "default", c.intDefault(5.0))))
 	}
 	if c.qa {
 		p := m("name", "qa", "in", "query", "schema", m("type", "array", "items", m("type", "integer"), "default", l(1.0, 2.0)))
@@ -180,7 +196,7 @@ func (c c13Case) document() map[string]any {
 		params = append(params, m("name", "X-Hp", "in", "header", "schema", m("type", "string", "default", "hv")))
 	}
 	if c.cp {
-		params = append(params, m("name", "cp", "in", "cookie", "schema", m("type", "integer", "default", 7.0)))
+		params = append(params, m("name", "cp", "in", "cookie", "schema", m("type", "integer", "default", c.intDefault(7.0))))
 	}
 	op := m("responses", m("200", m("description", "ok")))
 	if params != nil {
@@ -251,6 +267,9 @@ func init() {
 		Body: func(r *core.Run, x *explore.X) {
 			var c c13Case
 			c.qp, c.qa, c.hp, c.cp = x.Bool(), x.Bool(), x.Bool(), x.Bool()
+			if c.qp || c.cp {
+				c.big = x.Bool()
+			}
 			c.arr = c13ArrStyles[0]
 			if c.qa {
 				c.arr = explore.Pick(x, c13ArrStyles)
@@ -276,6 +295,7 @@ func init() {
 			c.skip = x.Bool()
 			c.auth = x.Choose(3)
 			c.serverWay = x.Bool()
+			c.sameInput = x.Bool()
 			if !r.Own(x) {
 				return
 			}
@@ -367,7 +387,7 @@ func init() {
 			expHeader := origHeader.Clone()
 			if defaultsApply {
 				if c.qp && c.qpV == 0 {
-					expQuery["qp"] = []string{"5"}
+					expQuery["qp"] = []string{c.intText("5")}
 				}
 				if c.qa && c.qaV == 0 {
 					s := ref.Serialize(ref.Cell{In: "query", Style: c.arr.cellStyle(), Explode: c.arr.explode}, "qa", l(1.0, 2.0), false)
@@ -379,7 +399,7 @@ func init() {
 					expHeader.Set("X-Hp", "hv")
 				}
 				if c.cp && c.cpV == 0 {
-					expHeader.Set("Cookie", expHeader.Get("Cookie")+"; cp=7")
+					expHeader.Set("Cookie", expHeader.Get("Cookie")+"; cp="+c.intText("7"))
 				}
 			}
 			var expBody any
@@ -481,6 +501,9 @@ func init() {
 			var err2 error
 			r.Exec(0)
 			in2 := &openapi3filter.RequestValidationInput{Request: req, Route: route, Options: opts} // the next hop validates the forwarded request
+			if c.sameInput {
+				in2 = in // the same caller validates once more with the input value it already has
+			}
 			if !r.Guard(x, "ValidateRequest#2", detail, func() { err2 = openapi3filter.ValidateRequest(context.Background(), in2) }) {
 				return
 			}
